@@ -8,7 +8,7 @@ sys.path.insert(0, os.path.join(os.path.dirname(os.path.abspath(__file__)), ".."
 import vf
 
 EAGAIN, EPIPE, EBADF, ECANCELED = -11, -32, -9, -125
-KNOWN_SHUT_CONN = "shutdown_pending_at_connect_completion_stalls"
+KNOWN_LOST_CB = "write_callback_lost_when_connect_started_before_delivery"
 
 
 # --------------------------------------------------------------------------
@@ -41,6 +41,8 @@ def wakeups_needed(op_strings):
                     if int(a) == 0:
                         n += k
                 n += 1 + nb // 1024
+            elif tok[0] == "K":
+                n += 3           # a retried connect: delayed error or completion, then what was queued behind it
     return n
 
 
@@ -156,8 +158,11 @@ def gen_case(rng):
 
 
 def gen_conn_case(rng):
-    """scripts that start between uv_tcp_connect/uv_pipe_connect and the connect callback"""
-    conn = rng.choice(["t0", "t0", "t0", "t1", "t3", "u0", "u0", "u0", "u2", "T", "T", "U"])
+    """scripts that start between uv_tcp_connect/uv_pipe_connect and the connect callback; connects retried on
+    the same handle (Kl = to the listener, Kd = to the address nobody listens on) at top level, from the connect
+    callback and from write callbacks"""
+    conn = rng.choice(["t0", "t0", "t0", "t1", "t3", "u0", "u0", "u0", "u2", "T", "T", "T", "U", "U"])
+    dead = conn in ("T", "U")
     shutans = rng.choice([0] * 9 + [107])
     ops, behs, script, written = [], [], [], []
 
@@ -170,8 +175,14 @@ def gen_conn_case(rng):
         written.append(b)
         return lens_str(b)
 
+    def retry():
+        # right after a refused TCP connect the first retry comes back with ECONNABORTED: retry twice, too
+        return rng.choice(["Kl", "Kd", "Kl Kl", "Kd Kl", "Kl Kl", "Kd Kd", "Kl Kd"])
+
     def some_op(top, big_ok):
         r = rng.random()
+        if dead and r < 0.12:
+            return retry()
         if r < 0.50:
             return "W" + wr(big_ok)
         if r < 0.62:
@@ -184,16 +195,30 @@ def gen_conn_case(rng):
     # while the connect is pending
     for _ in range(rng.choice([0, 1, 1, 2, 2, 3, 4, 6])):
         r = rng.random()
-        ops.append("W" + wr() if r < 0.7 else ("T" + lens_str(gen_bufs(rng, False)) if r < 0.85 else "S"))
+        ops.append("W" + wr() if r < 0.7 else ("T" + lens_str(gen_bufs(rng, False)) if r < 0.85 else
+                                               ("Kl" if r < 0.9 else "S")))
     if rng.random() < 0.55 and "S" not in ops:
         ops.append("S")
     if rng.random() < 0.05:
         ops.append("C")
     ops += ["R"] * rng.choice([1, 1, 2, 4])
+    if dead and rng.random() < 0.5:
+        # after the failed connect: writes (they fail at once and wait in write_completed_queue for the next
+        # run of the pending queue), a shutdown, and the connect retried at top level before the loop runs again
+        for _ in range(rng.choice([1, 1, 2, 3, 5])):
+            r = rng.random()
+            ops.append("W" + wr(False) if r < 0.45 else retry() if r < 0.75 else "S" if r < 0.85 else "R")
     for _ in range(rng.choice([0, 0, 1, 3, 6])):
         ops.append(some_op(True, False))
-    for _ in range(rng.choice([0, 0, 1, 2, 5])):
+    nbeh = rng.choice([0, 0, 1, 2, 5])
+    for k in range(nbeh):
         behs.append(" ".join(some_op(False, False) for _ in range(rng.choice([0, 1, 1, 2]))))
+    if dead and rng.random() < 0.5:
+        # the callback of the failed connect (the first callback of the run when nothing was called back before)
+        # retries: to the listener, to the dead address, or both, with or without a shutdown / write around it
+        first = rng.choice([retry(), retry(), "S " + retry(), retry() + " S", "W" + wr(False) + " " + retry(),
+                            retry() + " W" + wr(False)])
+        behs = [first] + behs[1:] if behs else [first]
     bounds = [0, 1]
     for b in written:
         acc = 0
@@ -361,10 +386,32 @@ FIXED_CONN = [
     "0 0 T ; W3 W0 R R R C R ; ; ; settle3",
     "0 0 U ; W3 S R R R ; ; ; settle3",
     "0 0 T ; W3 W0 S R R R C R ; W1 | ; ; settle3",
-    # shutdown with nothing queued while the connect is pending (finding: it is never carried out)
+    # shutdown with nothing queued while the connect is pending (it was never carried out before the repair of
+    # uv__stream_connect), with writes queued and the connect refused
     "0 0 t0 ; S R R R R ; ; ; settle4",
+    "0 0 T ; W3 S R R R R ; ; ; settle4",
     # close while connecting
     "0 0 t0 ; W2 S C R R ; ; ; settle2",
+    # a second uv_tcp_connect while the first is pending: UV_EALREADY
+    "0 0 t0 ; Kl R R R R ; ; ; settle4",
+    # shutdown pending, the connect fails, the connect callback retries: to the listener, to the dead address, not
+    "0 0 T ; S R R R R R R ; Kl Kl ; ; settle6",
+    "0 0 T ; S R R R R R R ; Kd Kd ; ; settle6",
+    "0 0 T ; S R R R R R R ; ; ; settle6",
+    "0 0 U ; S R R R R R ; Kl ; ; settle5",
+    "0 0 U ; W2 S R R R R R ; Kd ; ; settle5",
+    # a connect started from a write callback (it was stranded by uv__drain before the repair of uv__stream_io)
+    "0 0 T ; R R W1 R R R R R R ; | Kl Kl | ; ; settle6",
+    "0 0 T ; R R W1 S R R R R R R ; | Kl Kl | ; ; settle6",
+    # known finding write_callback_lost_when_connect_started_before_delivery: the write fails at once (the
+    # request waits in write_completed_queue, watcher fed), the connect is retried before the loop runs again
+    "0 0 T ; R R W1 Kl Kl R R R R R R ; | | | ; ; settle6",
+    # ... the same start, but the retried connect fails too: the flush delivers the callback
+    "0 0 T ; R R W1 Kd Kd R R R R R R ; | | | ; ; settle6",
+    # ... and a shutdown after the retry rescues the callback (the fed watcher runs uv__write_callbacks)
+    "0 0 U ; R R W1 Kl R R R R ; ; ; settle4",
+    # uv_tcp_connect retried after uv_shutdown sets UV_HANDLE_WRITABLE again: the write is accepted
+    "0 0 T ; S R R Kl Kl W4 R R R R R ; ; ; settle5",
 ]
 
 
@@ -416,7 +463,10 @@ def monitor(case, line):
     write2, fd_sent, peer_fds = set(), {}, {}
     hdr0 = case.split(";")[0].split()
     conn_case = len(hdr0) > 2 and hdr0[2][0] in "tuTU"
-    conn_status, pending_at_conn, shut_pending_at_conn, conn_step_open = None, [], False, False
+    conn_status = None
+    conn_pending = 1 if conn_case else 0      # connect requests accepted and not called back yet
+    reopened = False         # uv_tcp_connect after uv_shutdown: maybe_new_socket sets UV_HANDLE_WRITABLE again
+    orphaned = set()         # finished requests that were waiting for their callback when a connect was accepted
     left_at_shut = []
 
     def outstanding_bytes():
@@ -453,7 +503,7 @@ def monitor(case, line):
             ret[i] = c
             if c == -12:
                 enomem_pending = True
-            if shut_ok_at is not None and c not in (EPIPE, EBADF):
+            if shut_ok_at is not None and not reopened and c not in (EPIPE, EBADF):
                 return (None, "uv_write after uv_shutdown returned %d, not UV_EPIPE" % c)
             if c != 0 and acc[i] != 0:
                 return (None, "uv_write %d failed with %d but %d of its bytes were written" % (i, c, acc[i]))
@@ -511,7 +561,6 @@ def monitor(case, line):
                 return (None, "write_queue_size is %d inside the callback of %d, unsent bytes of pending requests: %d" % (q, i, exp))
         elif k == "q":
             in_cb = False
-            conn_step_open = False
             exp = outstanding_bytes()
             if int(a) != exp and enomem_pending:
                 return (None, "write_queue_size is %d after a uv_write that returned UV_ENOMEM, it was %d before "
@@ -523,14 +572,26 @@ def monitor(case, line):
         elif k == "k":
             in_cb = True
             conn_status = int(a[1:])
-            pending_at_conn = [i for i in total if ret.get(i) == 0 and i not in cbs and i not in is_try]
-            shut_pending_at_conn = shut_ok_at is not None and not any(e[0] == "B" for e in trace[:pos])
-            conn_step_open = True
+            if conn_pending == 0:
+                return (None, "connect callback (status %d) without a pending connect request" % conn_status)
+            conn_pending -= 1
+        elif k == "K":
+            code = int(a[1:])
+            if code == 0:
+                if conn_pending:
+                    return (None, "a connect was accepted while another connect request was pending")
+                conn_pending += 1
+            if shut_ok_at is not None and code != -114 and conn_case and hdr0[2][0] in "tT":
+                reopened = True
+        elif k == "o":
+            ids = [int(x) for x in a.split(",")]
+            for i in ids:
+                if ret.get(i) != 0 or i in cbs:
+                    return (None, "write_completed_queue holds request %d, which was refused or already called back" % i)
+            orphaned.update(ids)
         elif k == "s":
             if int(a[1:]) == 0:
                 shut_ok_at = pos
-                if conn_step_open and conn_status is not None and conn_status < 0:
-                    shut_pending_at_conn = True       # issued from the callback of the failed connect
         elif k == "Y":
             sys_shut = int(a[1:])
             left_at_shut = [i for i in total if ret.get(i) == 0 and i not in cbs and acc[i] != total[i]
@@ -567,18 +628,18 @@ def monitor(case, line):
     settle = "settle" in case.split(";")[-1]
     if settle:
         stuck = [i for i in total if ret.get(i) == 0 and i not in cbs and i not in is_try]
+        if stuck and all(i in orphaned for i in stuck):
+            # exactly the catalogued situation: each of these requests was finished and waiting in
+            # write_completed_queue when a connect was accepted on the handle, and its callback never came
+            return (KNOWN_LOST_CB, "requests %s were finished and waiting for their callback when a connect was started "
+                    "on the handle; the fed watcher then ran uv__stream_connect instead of uv__write_callbacks "
+                    "and the callbacks never ran although the loop kept running" % stuck[:5])
         if stuck:
             return (None, "requests %s never got their callback although the loop kept running (stalled queue)" % stuck[:5])
         if shut_ok_at is not None and not any(e[0] == "B" for e in trace):
-            if conn_status is not None and shut_pending_at_conn and (conn_status < 0 or not pending_at_conn):
-                return (KNOWN_SHUT_CONN, "uv_shutdown issued while the connect was pending is never carried out: at "
-                        "the connect callback (status %d) no write was queued, POLLOUT was stopped and "
-                        "uv__drain is not reached; the shutdown callback never runs and the loop stays alive"
-                        % conn_status)
             return (None, "uv_shutdown succeeded but its callback never ran")
-        if " t" in case.split(";")[0] or " u" in case.split(";")[0]:
-            if conn_status is None and "x" not in trace:
-                return (None, "the connect callback never ran")
+        if conn_pending and "x" not in trace:
+            return (None, "a connect request was accepted but its callback never ran although the loop kept running")
     return None
 
 
@@ -742,7 +803,10 @@ def main():
              "write_queue_size after every step and inside every callback, shutdown(2) position, peer bytes/EOF; "
              "third pass: scripts that start between a real non-blocking uv_tcp_connect/uv_pipe_connect (to a "
              "listener of the harness, or to an address nobody listens on) and the connect callback, with "
-             "connect(2)/getsockopt(SO_ERROR) answers logged and EINPROGRESS answers forced; fourth pass: uv_write2 "
+             "connect(2)/getsockopt(SO_ERROR) answers logged and EINPROGRESS answers forced, and connects retried on "
+             "the same handle at top level, from the connect callback and from write callbacks (with writes finished "
+             "but not called back, with a shutdown pending); every accepted connect must be called back once, the "
+             "harness reports write_completed_queue at every accepted connect; fourth pass: uv_write2 "
              "with a bound uv_tcp_t as send_handle on a pipe opened with ipc=1, payloads split by scripted short "
              "writes; the wrapped sendmsg keeps and records the SCM_RIGHTS control message per call, the peer "
              "counts the descriptors it receives with recvmsg per request; fifth pass: buffers of 2^31-1 ... 2^32+1 "
